@@ -43,6 +43,15 @@ pub proof fn lemma_eff_after_latest(s: Storage, a: Seq<char>, lp: Seq<char>, l: 
     if e > l { lemma_eff_after_latest(s, a, lp, l, (e - 1) as u64); }
 }
 
+/// a positive effective weight comes from some snapshot at or before the epoch
+pub proof fn lemma_eff_pos_has_snapshot(s: Storage, a: Seq<char>, lp: Seq<char>, e: u64) -> (k: u64)
+    requires eff_weight(s, a, lp, e) > 0,
+    ensures k <= e, has_weight(s, a, lp, k),
+    decreases e,
+{
+    if has_weight(s, a, lp, e) { e } else { lemma_eff_pos_has_snapshot(s, a, lp, (e - 1) as u64) }
+}
+
 // @lemma sync_preserves_effective_weight_when_not_backdating [C06,C07]
 /// collapsing the history into one snapshot at `until` keeps every effective weight from `until` on,
 /// PROVIDED no snapshot is later than `until` (otherwise a later weight is back-dated: finding F1)
